@@ -83,6 +83,45 @@ func scribbleAll(fs ...[]byte) {
 	}
 }
 
+// payWindow builds the slice a Payload call is GIVEN.  A caller's payload is a slice — a window
+// arr[off:off+n] of an array the caller owns (a capture / read buffer that holds more than this
+// payload, or simply one with spare capacity) — so half of the inputs are handed over exactly sized
+// (cap == len, what make and literals give) and half as a two-index window of a larger array whose
+// bytes before and behind the window hold a position-dependent guard pattern: off is 0 (a read buffer
+// filled from its start) or 1..16, and 1 … 2000 bytes follow the window.  The shape is a function of
+// the input alone (length, first bytes, salt), so a case replays exactly and the case's PRNG stream
+// is not disturbed.  A nil input stays nil.  arr is the whole array (== win for exact inputs).
+func payWindow(input []byte, salt int) (arr, win []byte) {
+	if input == nil {
+		return nil, nil
+	}
+	h := uint32(2166136261)
+	mix := func(b byte) { h = (h ^ uint32(b)) * 16777619 }
+	mix(byte(salt))
+	mix(byte(salt >> 8))
+	mix(byte(len(input)))
+	mix(byte(len(input) >> 8))
+	for i := 0; i < len(input) && i < 8; i++ {
+		mix(input[i])
+	}
+	h ^= h >> 15
+	if h&1 == 0 {
+		c := cloneBytes(input)
+		return c, c
+	}
+	off := 0
+	if h&2 != 0 {
+		off = 1 + int(h>>2)%16
+	}
+	tail := []int{1, 3, 4, 17, 64, 64, 300, 2000}[int(h>>8)%8]
+	arr = make([]byte, off+len(input)+tail)
+	for i := range arr {
+		arr[i] = 0xC3 ^ byte(i)
+	}
+	copy(arr[off:], input)
+	return arr, arr[off : off+len(input)]
+}
+
 type payloader interface {
 	Payload(mtu uint16, payload []byte) [][]byte
 }
@@ -124,16 +163,19 @@ func (r *payRecord) write(o *Toks) {
 
 func observePayDeferred(p, twin payloader, mtu uint16, input []byte) *payRecord {
 	r := &payRecord{}
-	buf := cloneBytes(input)
+	// the input is a window of the caller's array (see payWindow); "the caller's input buffer is left
+	// unmodified" covers the whole array: the bytes before and behind the window too
+	arr, buf := payWindow(input, int(mtu))
+	pristine := cloneBytes(arr)
 	var frags [][]byte
 	if try(func() { frags = p.Payload(mtu, buf) }) {
 		r.panicked = true
 		try(func() { twin.Payload(mtu, cloneBytes(input)) })
 		return r
 	}
-	r.inputSame = bytes.Equal(buf, input)
+	r.inputSame = bytes.Equal(arr, pristine) && bytes.Equal(buf, input)
 	for _, f := range frags {
-		if overlaps(f, buf) {
+		if overlaps(f, arr) {
 			r.overlap = true
 		}
 	}
@@ -141,8 +183,8 @@ func observePayDeferred(p, twin payloader, mtu uint16, input []byte) *payRecord 
 	r.snap = cloneFrags(frags)
 	// the caller appends to every fragment in place (spare capacity only), then reuses its buffer
 	scribbleSpare(frags...)
-	for i := range buf {
-		buf[i] ^= 0xA5
+	for i := range arr {
+		arr[i] ^= 0xA5
 	}
 	r.fragsStable = fragsEqual(frags, r.snap)
 	var tw [][]byte
